@@ -1,2 +1,3 @@
 import Proofs.LFU
 import Proofs.Pickle
+import Proofs.PickleEnc
